@@ -38,6 +38,19 @@ PROPS["C07"] = {
     "release_filter": r"^(de)?compress ",
 }
 
+PROPS["C06"] = {
+    "level": "proof",
+    "technique": "Lean 4 theorems on a model of the three from_bytes/to_bytes pairs (signature strictness for all strings, rejection rules for all three types, totality of pk decoding) + model/implementation differential execution with an independent format reference",
+    "rule": "ops = for each type (pk, sk, sig) x variant: all 256 header bytes on a valid body; valid encodings with exactly one thing wrong (header bit, length +-1, other variant's length, +8192/16384 trailing bytes, a field at q-1/q/q+1/2^14-1 or at the reserved 10..0 pattern and its neighbours, bit flips, random bodies), decoded with the matching and the other variant; degenerate lengths 0..3; output = re-encoding of what was accepted or the error kind; distinct by op line; every op is judged: accepted iff the harness's naive format reference accepts, and then the re-encoding equals the input",
+    "exhaustive": {"quick": (False, "header byte enumerated completely per type/variant; bodies generated"), "thorough": (False, "same, 20x more bodies")},
+    "level_text": "Machine-checked: Signature::from_bytes never panics, accepts exactly one header byte (0x59 / 0x5a), and every accepted string re-encodes to itself (all byte strings); wrong lengths, the other variant, non-canonical headers, 14-bit fields >= q and the reserved secret-key pattern are rejected (theorems per rule); PublicKey::from_bytes is total. The bit-chunk reassembly behind 'accepted => re-encodes identically' for the two key types is validated by execution against the real code and a naive format reference on every run, not yet proved for all strings.",
+    "level_note": "Trusted: Lean kernel; model of BitVec/chunks as list functions; translator (lengths, widths, header constants); harness. Key-type strictness beyond the rejection rules rests on differential execution.",
+    "trusted_base": TB_COMMON + ["bit-vec and itertools::chunks are modelled as list functions, not verified"],
+    "assumptions": ["SecretKey equality after decoding (recomputed G) is part of C05, not of this check"],
+    "not_proved": ["pkFromBytes/skFromBytes accepted => toBytes reproduces the input, for all strings (validated per run)"],
+    "release_too": True,
+}
+
 # properties not (yet) claimed, with the reason shown in MANIFEST.not_applicable
 NOT_YET = {k: "check not built yet in this session (planned in DESIGN.md §7/§8); not claimed until its check passes" for k in
-           ["C01", "C02", "C03", "C04", "C05", "C06", "C08", "C09", "C10", "C11", "C13", "C14", "C15", "C16", "C17"]}
+           ["C01", "C02", "C03", "C04", "C05", "C08", "C09", "C10", "C11", "C13", "C14", "C15", "C16", "C17"]}
